@@ -1304,6 +1304,54 @@ static void c07_tail(G& g, Plan& p, Program& P0) {
   (void)g;
 }
 
+
+// OS refusals while a thread starts: the first allocator call of a fresh thread (of any kind: a free of somebody else's block,
+// possibly in an abandoned segment, an allocation, a heap operation) runs with the OS refusing memory, so the thread's own
+// heap / metadata cannot be created; afterwards the OS grants everything again and the thread carries on
+static void fam_c07_threadstart(G& g, Plan& p) {
+  if (g.chance(0.5)) set_env(p, "ABANDONED_RECLAIM_ON_FREE", 1);
+  if (g.chance(0.2)) set_env(p, "DISALLOW_ARENA_ALLOC", 1);
+  if (g.chance(0.2)) set_env(p, "ARENA_EAGER_COMMIT", 0);
+  p.cfg.strategy = g.chance(0.6) ? ST_NONE : ST_RANDOM; p.cfg.switch_p = 0.01; p.cfg.spurious_p = 0; p.cfg.entropy_fail = (int)g.below(2);
+  const bool keeper = g.chance(0.6);     // a thread that stays alive and so holds the cached thread metadata of the leaver
+  const int nfresh = 1 + (int)g.below(2);
+  const int nt = 2 + (keeper ? 1 : 0) + nfresh;
+  p.nslots = 80; p.progs.resize((size_t)nt);
+  Program& P0 = p.progs[0]; Program& L = p.progs[1];
+  std::vector<size_t> cls; for (int i = 0; i < 3; i++) cls.push_back(class_req(g, 44));
+  int n = 6 + (int)g.below(20);
+  for (int i = 0; i < n; i++) L.ops.push_back(mk(OP_malloc, i, g.chance(0.8) ? cls[g.below(3)] : 100 * KiB + g.below(900 * KiB)));
+  L.explicit_done = g.chance(0.5);
+  for (int i = 0; i < 6; i++) P0.ops.push_back(mk(OP_malloc, 40 + i, cls[g.below(3)]));      // blocks of a live owner (main) as well
+  P0.ops.push_back(mk(OP_spawn, 1)); P0.ops.push_back(mk(OP_join, 1));
+  int next = 2;
+  if (keeper) { Program& K = p.progs[(size_t)next]; if (g.chance(0.7)) K.ops.push_back(mk(OP_thread_init)); else K.ops.push_back(mk(OP_malloc, 60, 64));    // initialises the thread (takes the cached metadata); an allocation would also adopt the abandoned segment
+                K.ops.push_back(mk(OP_barrier, 8, 2)); K.ops.push_back(mk(OP_barrier, 7, 2)); K.ops.push_back(mk(OP_free, 60));
+                P0.ops.push_back(mk(OP_spawn, next)); P0.ops.push_back(mk(OP_barrier, 8, 2)); next++; }     // the keeper has started (and taken the cached metadata) before the fresh threads do
+  for (int f = 0; f < nfresh; f++, next++) {
+    Program& F = p.progs[(size_t)next];
+    // first call under refusal
+    Op first; int k = (int)g.below(10);
+    if (k < 4) first = mk(OP_free, (int)g.below((uint64_t)n));                      // block of the terminated thread (abandoned segment)
+    else if (k < 5) first = mk(OP_free, 40 + (int)g.below(6));                      // block of the live main thread
+    else if (k < 7) first = mk(g.chance(0.3) ? OP_zalloc : OP_malloc, 62 + f, g.chance(0.7) ? cls[g.below(3)] : 300 * KiB);
+    else if (k < 8) first = mk(OP_realloc, (int)g.below((uint64_t)n), cls[g.below(3)] + 64);
+    else if (k < 9) first = mkh(OP_heap_new, 0);
+    else first = mk(OP_collect, -1, g.below(2));
+    { OpFault fl; fl.kind = g.chance(0.7) ? (int)OS_MMAP : -1; fl.nth = g.pick({0, 0, 0, 1, 2}); fl.persistent = g.chance(0.8); if (g.build == "DBG" && fl.kind != OS_MMAP) fl.kind = OS_MMAP; first.faults.push_back(fl); first.flags |= OPF_MAY_FAIL; }
+    F.ops.push_back(first);
+    int more = (int)g.below(5);
+    for (int i = 0; i < more; i++) { Op o = g.chance(0.5) ? mk(OP_free, (int)g.below((uint64_t)n)) : mk(OP_malloc, 64 + f * 6 + i, cls[g.below(3)]); o.flags |= OPF_MAY_FAIL; F.ops.push_back(o); }
+    F.ops.push_back(mk(OP_heal_os));
+    for (int i = 0; i < 4; i++) { Op o = mk(OP_malloc, 70 + f * 4 + i, i == 3 ? 200 * KiB : cls[g.below(3)]); o.flags = OPF_MUST_SUCCEED; F.ops.push_back(o); }
+    F.ops.push_back(mk(OP_verify_all));
+    F.explicit_done = g.chance(0.5);
+    P0.ops.push_back(mk(OP_spawn, next)); P0.ops.push_back(mk(OP_join, next));
+  }
+  if (keeper) { P0.ops.push_back(mk(OP_barrier, 7, 2)); P0.ops.push_back(mk(OP_join, 2)); }
+  c07_tail(g, p, P0);
+}
+
 static void fam_c07_base(G& g, Plan& p) {
   int variant = (int)(p.seed % 10);
   const bool lazy_exit = (variant == 5 && ((p.seed / 10) % 2) == 1);   // thread exit + lazily committed memory: reclaimed spans need a commit
@@ -1564,6 +1612,7 @@ static const FamilyDef FAMILIES[] = {
   {"c15_reclaim_route", "C15", fam_c15_reclaim_route, 0, true},
   {"c11_timed", "C11", fam_c11_timed, 0, false},
   {"c09_collect_race", "C09", fam_c09_collect_race, 0, true},
+  {"c07_threadstart", "C07", fam_c07_threadstart, 0, true},
   {"c15_arenas", "C15", fam_c15_arenas, 0, true},
   {"c17_misuse", "C17", fam_c17_misuse, 1, true},
   {"c03_align", "C03", fam_c03_align, 1, false},
